@@ -116,9 +116,18 @@ fn cache_dir() -> std::path::PathBuf {
 fn observe(history: &[String], keys: &[Key2], file: &FileState) -> Observed {
     let history = history.to_vec();
     let keys = keys.to_vec();
-    let history_file = cache_dir().join("lace-debugger-history");
-    let _ = std::fs::remove_file(&history_file);
-    let _ = std::fs::remove_dir(&history_file);
+    // Every run starts from an empty cache directory
+    let cache = cache_dir();
+    if let Ok(entries) = std::fs::read_dir(&cache) {
+        for e in entries.flatten() {
+            if e.file_type().map(|t| t.is_dir()).unwrap_or(false) {
+                let _ = std::fs::remove_dir_all(e.path());
+            } else {
+                let _ = std::fs::remove_file(e.path());
+            }
+        }
+    }
+    let history_file = cache.join("lace-debugger-history");
     let use_file = !matches!(file, FileState::Unused);
     match file {
         FileState::Unused => {}
@@ -205,7 +214,7 @@ fn observe(history: &[String], keys: &[Key2], file: &FileState) -> Observed {
             verif::disarm();
             drop(term2);
             if use_file {
-                obs.file_after = std::fs::read(&history_file).ok();
+                obs.file_after = crate::world_pty::history_file_in(&cache);
             }
             obs
         })
@@ -540,7 +549,7 @@ impl Check for C20 {
                         want.extend_from_slice(line.as_bytes());
                         want.push(b'\n');
                     }
-                    if after != &want {
+                    if !crate::world_pty::history_appended(before, after, &model.history[loaded..]) {
                         v.push(Violation::new(
                             ID,
                             "C20/read/history-file".to_string(),
@@ -901,7 +910,6 @@ fn phase4(history: &[String], keys: &[Key2], scenario: &J, report: &mut Report, 
                 submits: submitted.is_some(),
                 with_next: burst >> (k % 60) & 1 == 1,
                 program_keys: Vec::new(),
-                redraws_after: 0,
             });
         }
         if let Some(line) = submitted {
@@ -986,7 +994,8 @@ fn phase4(history: &[String], keys: &[Key2], scenario: &J, report: &mut Report, 
         ));
         return;
     }
-    let got = redraws(&run.tty);
+    let got = crate::world_pty::distinct(&redraws(&run.tty));
+    let expected_redraws = crate::world_pty::distinct(&expected_redraws);
     if got != expected_redraws {
         let at = (0..got.len().max(expected_redraws.len())).find(|i| got.get(*i) != expected_redraws.get(*i)).unwrap_or(0);
         let what = match (got.get(at), expected_redraws.get(at)) {
@@ -998,9 +1007,8 @@ fn phase4(history: &[String], keys: &[Key2], scenario: &J, report: &mut Report, 
             ID,
             format!("C20/pty/redraw/{}", what),
             format!(
-                "prompt redraw #{} on the pseudo-terminal (before key {:?}): real {:?}, reference {:?}",
+                "distinct prompt redraw #{} on the pseudo-terminal: real {:?}, reference {:?}",
                 at,
-                all.get(at).map(|k| k.name()),
                 got.get(at),
                 expected_redraws.get(at)
             ),
@@ -1022,7 +1030,8 @@ fn phase4(history: &[String], keys: &[Key2], scenario: &J, report: &mut Report, 
         // its business; the session itself (above) is what is judged
         return;
     }
-    if run.history_after.as_deref() != Some(&want[..]) {
+    let appended = run.history_after.as_deref().map(|after| crate::world_pty::history_appended(&before, after, &model.history[history.len()..]));
+    if appended != Some(true) {
         v.push(Violation::new(
             ID,
             "C20/pty/history-file".to_string(),
@@ -1078,7 +1087,6 @@ fn phase5(first: &str, minimal: bool, report: &mut Report, v: &mut Vec<Violation
             submits: true,
             with_next: false,
             program_keys,
-            redraws_after: 5 * (line + 1) + 1,
         });
     }
     expected_out.push(b'\n');
@@ -1087,7 +1095,6 @@ fn phase5(first: &str, minimal: bool, report: &mut Report, v: &mut Vec<Violation
         submits: true,
         with_next: false,
         program_keys: Vec::new(),
-        redraws_after: 0,
     });
     let mut run = run_pty(&scratch, &asm, minimal, 80, None, &chunks);
     if run.stalled.is_some() {
@@ -1099,6 +1106,9 @@ fn phase5(first: &str, minimal: bool, report: &mut Report, v: &mut Vec<Violation
     if run.spawn_error.is_some() {
         return;
     }
+    // (whether the line feed that ends a typed line goes to standard output or to the terminal
+    // is not the program's output)
+    let without_line_feeds = |out: &[u8]| -> Vec<u8> { out.iter().copied().filter(|b| *b != b'\n').collect() };
     let after_marker = |out: &[u8]| -> Vec<u8> {
         let marker = &crate::world_b::framing().before;
         out.windows(marker.len()).position(|w| w == &marker[..]).map(|at| out[at + marker.len()..].to_vec()).unwrap_or_default()
@@ -1117,7 +1127,7 @@ fn phase5(first: &str, minimal: bool, report: &mut Report, v: &mut Vec<Violation
             format!("C20/pty-input/status={:?}{}", run.status, if panic.is_some() { "/panic" } else { "" }),
             format!("program input typed on the pseudo-terminal (first key {:?}): session ended with {:?} {}", first, run.status, panic.unwrap_or_default()),
         ));
-    } else if !after_marker(&run.stdout).starts_with(&expected_out) {
+    } else if !without_line_feeds(&after_marker(&run.stdout)).starts_with(&without_line_feeds(&expected_out)) {
         v.push(Violation::new(
             ID,
             "C20/pty-input/output".to_string(),
